@@ -510,6 +510,13 @@ def _np_linspace(I, st, pos, kws, node):
     a = pos[0]
     b = pos[1]
     num = kws.get("num", pos[2] if len(pos) > 2 else IntN(50))
+    if isinstance(num, OptV):
+        excs0, ok0 = I.may_raise(st, num.isnone, "TypeError", "linspace: num is None", I.where(node))
+        if ok0 is None:
+            return excs0
+        kws2 = dict(kws)
+        kws2["num"] = num.val
+        return excs0 + _np_linspace(I, ok0, pos[:2], kws2, node)
     if not (isinstance(num, Num) and num.kind in ("int", "bool")):
         if isinstance(num, Num):
             return [(st, Exc("TypeError", "linspace: num must be an integer", I.where(node)))]
@@ -615,18 +622,10 @@ def _extreme(I, st, rs, is_min, node):
     res = list(excs)
     if ok is None:
         return res
-    cl = rs.conc_len()
-    m = z3.Real(fresh_name("min" if is_min else "max"))
-    w = z3.Int(fresh_name("argext"))
-    i = z3.Int(fresh_name("i"))
-    e = rs.elem
-    ok.assume(z3.And(w >= 0, w < rs.length, to_real(e(w)) == m))
-    if cl is not None and cl <= 8:
-        for k in range(cl):
-            ok.assume(m <= to_real(e(z3.IntVal(k))) if is_min else m >= to_real(e(z3.IntVal(k))))
-    else:
-        ok.assume(z3.ForAll([i], z3.Implies(z3.And(i >= 0, i < rs.length), m <= to_real(e(i)) if is_min else m >= to_real(e(i)))))
-    res.append((ok, Num(m, "real")))
+    A = L.array_term(I, ok, rs)
+    for ax in extreme_axioms(A, rs.length, is_min):
+        ok.assume(ax)
+    res.append((ok, Num((MINF if is_min else MAXF)(A, rs.length), "real")))
     return res
 
 
